@@ -172,6 +172,12 @@ def extB (name : String) (args : List Val) : M (List Nat) := ⟨fun os =>
   match os.answers with
   | Val.bs l :: rest => (Res.ok l, { logCall name args os with answers := rest })
   | _ => (Res.panic "oracle-exhausted", logCall name args os)⟩
+/-- a call whose result is an `Option` of something the translated code only passes on (`pop()`):
+    the oracle says whether there was one (non-zero) -/
+def extO (name : String) (args : List Val) : M (Option Unit) := ⟨fun os =>
+  match os.answers with
+  | Val.n i :: rest => (Res.ok (if i = 0 then none else some ()), { logCall name args os with answers := rest })
+  | _ => (Res.panic "oracle-exhausted", logCall name args os)⟩
 def panicNow {α : Type} (msg : String) : M α := ⟨fun os => (Res.panic msg, os)⟩
 
 def sabs (bits : Nat) (mode : Mode) (a : Int) : Res Int := chkS bits mode (if a < 0 then -a else a)
